@@ -82,6 +82,8 @@ def gen_history(rng, n, ndirs, length):
                 ops[-1]['how'] = 'np'             # ... by a numpy integer
             elif u < 0.6:
                 ops[-1]['how'] = 'slice'          # ... through a one-element slice
+            elif u < 0.75:
+                ops[-1]['how'] = 'neg'            # ... by its negative index
         elif k == 'next':
             live = [i for i, (w, pos) in iters.items() if wrappers[w]['alive'] and pos < n]
             if live and rng.random() < 0.75:
